@@ -20,7 +20,7 @@ class Contract:
                  raises=(), locals=None, loops=None, defn=None, modifies=(), kind="function",
                  status="verify", impl_of=None, self_guard=None, defaults=None, ensures_on_raise=(),
                  attrs=None, is_lemma=False, note="", total=None, properties=(), inline=False, use_at_end=(), opaque=(),
-                 aliases_ok=(), use_at_start=(), cases=(), view=None, pure=False, payloads=None, ghost_asserts=(), returns_nodup=False):
+                 aliases_ok=(), use_at_start=(), cases=(), view=None, pure=False, payloads=None, ghost_asserts=(), returns_nodup=False, ghost_at=None, opts=()):
         self.key = key
         self.module = module
         self.qualname = qualname or key
@@ -50,6 +50,8 @@ class Contract:
         self.aliases_ok = set(aliases_ok)
         self.use_at_start = list(use_at_start)
         self.cases = list(cases)              # Boolean parameter fields to split on (verified once per valuation)
+        self.opts = set(opts)  # engine options for this function, e.g. "sorted_as_seq": sorted(names) is a Seq ordered by lex_le (default: order abstracted away)
+        self.ghost_at = dict(ghost_at or {})  # proof hints placed BEFORE the first statement whose source text starts with the key: each is an obligation there, then assumed
         self.ghost_asserts = list(ghost_asserts)  # proof hints: asserted (as obligations) and then assumed at a normal return, on the paths where their locals exist
         self.returns_nodup = returns_nodup    # the returned LIST has no duplicates (established structurally when the function is verified; lets callers use len() as cardinality)
         self.payloads = payloads or {}        # exception name -> spec expression of the message (args[0]) of the raised exception
@@ -957,8 +959,17 @@ class Registry:
     def pure_fn_app(self, eng, c, cs, lineno):
         scalar = ("bool", "str", "int", "node", "data", "bag", "set")
         is_opt = c.returns is not None and c.returns[0] == "opt" and c.returns[1][0] in scalar
-        if c.modifies or c.raises or c.returns is None or not (c.returns[0] in scalar or is_opt):
+        in_comp = (not eng.spec) and bool(getattr(eng, "_comp_ctx", None))
+        if c.modifies or (c.raises and not (in_comp or eng.spec)) or c.returns is None or not (c.returns[0] in scalar or is_opt):
             raise OutOfSubset(f"call of {c.key} under a binder: needs a 'defn' contract or a pure total contract with a scalar result")
+        if c.raises and in_comp:
+            # (in a specification the application just denotes the function; its axiom is guarded by 'no raises-condition holds')
+            # inside a comprehension of the executed code: the comprehension raises iff SOME iteration meets a raises-condition (decided by comp_items);
+            # on the other iterations the result is the uninterpreted function, whose axiom is guarded by 'no raises-condition holds'
+            cx = eng._comp_ctx[-1]
+            for exc, cond in c.raises:
+                t = zand(*[t_ for _, t_ in eng.spec_conj([cond], cs)])
+                cx["raises"].append((exc, t, list(cx["member"]), list(cx["consts"]), lineno))
         pnames = list(c.params)
         args = [cs.vars[n] for n in pnames]
         terms = [t for a in args for t in self.flatten(a)]
@@ -989,7 +1000,7 @@ class Registry:
                 app = fn(*[t for v in pvs.values() for t in self.flatten(v)])
                 eng.result = V(c.returns, app)
                 eng.qdepth = 91
-                req = zand(*[t for _, t in eng.spec_conj(c.requires, ps)])
+                req = zand(*[t for _, t in eng.spec_conj(c.requires, ps)] + [znot(t) for _, cond in c.raises for _, t in [(None, zand(*[t_ for _, t_ in eng.spec_conj([cond], ps)]))]])
                 ens = zand(*[t for _, t in eng.spec_conj(c.ensures, ps)])
                 eng.axioms_used[("pure", c.key)] = z3.ForAll(consts, z3.Implies(req, ens), patterns=[app]) if consts else z3.Implies(req, ens)
             finally:
